@@ -537,6 +537,18 @@ def run(ctx: Ctx) -> None:
     # ------------------------------------------------------------------ R4
     dc = ctx.repo.cls("DecryptCipher")
     nonce_rule(ctx, dc, dc.methods["decrypt"], "_decrypt", "C04.R4")
+    # the only freshness the initiator of NNpsk0 contributes is its ephemeral key: generated by the Noise library for
+    # every handshake.  The package neither supplies key pairs nor replaces the key agreement of the backend.
+    fixed_keys = []
+    for f_ in ctx.repo.all_funcs():
+        if f_.name == "generate_keypair":
+            fixed_keys.append(f"{f_.qualname} overrides key generation")
+        for x in own_nodes(f_.node):
+            if isinstance(x, ast.Call) and isinstance(x.func, ast.Attribute) and x.func.attr.startswith("set_keypair_from"):
+                fixed_keys.append(f"{f_.qualname} L{x.lineno} {norm(x.func)}")
+            if isinstance(x, ast.Subscript) and isinstance(x.ctx, ast.Store) and isinstance(x.value, ast.Attribute) and x.value.attr in ("diffie_hellmans", "keypairs"):
+                fixed_keys.append(f"{f_.qualname} L{x.lineno} registers {norm(x)[:50]}")
+    ctx.ob("C04.R4", sp, "the ephemeral key of a session is the Noise library's own, generated per handshake", not fixed_keys, f"{fixed_keys[:3]}: with a key pair that outlives the session the client hello repeats, the same transport keys are derived again and a recorded session authenticates when played back to a later one")
 
 
 def _mac_body(eip: Func) -> bool:
